@@ -210,3 +210,38 @@ Definition c08_once_per_round (t : list obs) : bool := once_per_round false fals
 (** the state machine kept reading its inputs (the harness never found it blocked) *)
 Definition sm_responsive (t : list obs) : bool :=
   forallb (fun o => forallb (fun it => negb (hd0 it =? 23)) (snd o)) t.
+
+(** C07 (state-machine half): the validator set the state machine uses at height h is the one the driver returned when
+    finalizing h-2 (the finalization store keeps it across restarts).  Observed through participation: a round entrance of a
+    machine with a signer offers its actions channel iff validator 0 (the local key) is in that set.  [fins]: (height, set)
+    of every finalization saved successfully so far, oldest first. *)
+Fixpoint valset_ok (fins : list (N * N)) (t : list obs) : bool :=
+  match t with
+  | [] => true
+  | (ev, its) :: rest =>
+      let step := fold_left (fun (acc : bool * list (N * N)) it =>
+                    if (hd0 it =? 19) && (nthN it 6 =? 0) then (fst acc, snd acc ++ [(nthN it 1, nthN it 4)])
+                    else if (hd0 it =? 1) && (nthN it 3 =? 1) && (2 <=? nthN it 1) then
+                      match find (fun f : N * N => fst f =? nthN it 1 - 2) (snd acc) with
+                      | Some f => (fst acc && Bool.eqb (negb (nthN it 4 =? 0)) (N.testbit (snd f) 0), snd acc)
+                      | None => acc
+                      end
+                    else acc) its (true, fins) in
+      fst step && valset_ok (snd step) rest
+  end.
+Definition c07_sm_valset (t : list obs) : bool := valset_ok [] t.
+
+(** C08: the state machine enters height h (h above the initial height) only after the finalization of h-1 was stored
+    (in this or an earlier process lifetime on the same stores). *)
+Fixpoint height_after_fin (saved : list N) (t : list obs) : bool :=
+  match t with
+  | [] => true
+  | (ev, its) :: rest =>
+      let step := fold_left (fun (acc : bool * list N) it =>
+                    if (hd0 it =? 19) && (nthN it 6 =? 0) then (fst acc, nthN it 1 :: snd acc)
+                    else if (hd0 it =? 1) && (2 <=? nthN it 1) then
+                      (fst acc && existsb (N.eqb (nthN it 1 - 1)) (snd acc), snd acc)
+                    else acc) its (true, saved) in
+      fst step && height_after_fin (snd step) rest
+  end.
+Definition c08_height_after_fin (t : list obs) : bool := height_after_fin [] t.
